@@ -149,6 +149,8 @@ def replay_paths(args):
                 ble.hop_channel()
             elif name == "SetCh":
                 ble.channel = a[0]
+            elif name == "ReadCh":
+                _ = ble.channel
             elif name == "SetName":
                 ble.name = b"nRF24L01" if a[0] else None
             elif name == "Advertise":
